@@ -206,6 +206,12 @@ func c12Check(c *fw.Ctx, label, cfg string, r *decorator.Restorer, df *dst.File,
 		c.Count("inconclusive_output_does_not_parse", 1)
 		return 0
 	}
+	if !sameImportOrder(rf, ff) {
+		// format.Node sorted an import block (ast.SortImports): positions of specs and their
+		// comments are permuted by go/format, the order comparison does not apply to this file
+		c.Count("inconclusive_imports_sorted_by_go_format", 1)
+		return 0
+	}
 	rs, fs := astSeqNoComments(rf), astSeqNoComments(ff)
 	if len(rs) != len(fs) {
 		c.Count("inconclusive_lockstep_length", 1)
@@ -249,6 +255,12 @@ func c12Check(c *fw.Ctx, label, cfg string, r *decorator.Restorer, df *dst.File,
 	for i := range rcs {
 		if stripWS(rcs[i].Text) != stripWS(fcs[i].Text) {
 			// comment-comment order differs (or the printer rewrote text)
+			if inImportDecl(ff, fcs[i].Slash) {
+				// format.Node sorts the specs of an import block (ast.SortImports) and moves their
+				// comments with them: not a property of the restored positions
+				c.Count("inconclusive_imports_sorted_by_go_format", 1)
+				return len(pairs)
+			}
 			if sameMultiset(rcs, fcs) {
 				viol("comment-order", "comment-order", fmt.Sprintf("comment #%d is %q in the restored ast but %q in the printed text", i, rcs[i].Text, fcs[i].Text))
 			} else {
@@ -544,4 +556,37 @@ func lineCommentInSpan(f *ast.File, a, b token.Pos) bool {
 		}
 	}
 	return false
+}
+
+func inImportDecl(f *ast.File, p token.Pos) bool {
+	for _, d := range f.Decls {
+		if gd, ok := d.(*ast.GenDecl); ok && gd.Tok == token.IMPORT && p >= gd.Pos() && p <= gd.End() {
+			return true
+		}
+	}
+	return false
+}
+
+func sameImportOrder(a, b *ast.File) bool {
+	pa := func(f *ast.File) []string {
+		var out []string
+		for _, d := range f.Decls {
+			if gd, ok := d.(*ast.GenDecl); ok && gd.Tok == token.IMPORT {
+				for _, s := range gd.Specs {
+					out = append(out, s.(*ast.ImportSpec).Path.Value)
+				}
+			}
+		}
+		return out
+	}
+	x, y := pa(a), pa(b)
+	if len(x) != len(y) {
+		return false
+	}
+	for i := range x {
+		if x[i] != y[i] {
+			return false
+		}
+	}
+	return true
 }
